@@ -5,6 +5,7 @@
 WT=$1; SD=$2; shift 2
 cd "$WT" || exit 2
 git checkout -q -- teaal || exit 2
+git checkout -q --detach main 2>/dev/null || exit 2
 if [ "$VALIDATE" = "1" ]; then
   PYTHONPATH=$WT /venv/bin/python "$SD/demo.py" >/dev/null 2>&1; echo "demo on clean tree: exit $?"
 fi
